@@ -53,6 +53,8 @@ def tree_hash(repo):
             h.update(open(p, "rb").read())
     with open(TOOL, "rb") as fh:
         h.update(hashlib.sha256(fh.read()).digest())
+    with open(os.path.abspath(__file__), "rb") as fh:
+        h.update(hashlib.sha256(fh.read()).digest())
     h.update(repo.encode())
     return h.hexdigest()[:20]
 
@@ -185,8 +187,32 @@ def build_facts(repo=REPO, verbose=True):
                 out = os.path.join(hdir, "%s_%s.json" % (mode, cfg))
                 jobs.append((out, srcroot, srcf, flagsets[cfg] + mflags))
                 index["headers"]["%s_%s" % (mode, cfg)] = os.path.relpath(out, tmp)
+        # each header of src/include alone, in both language modes (may legitimately fail: recorded, not fatal)
+        solo_jobs = []
+        index["solo_headers"] = {}
+        incdir = os.path.join(srcroot, "include")
+        for h in sorted(os.listdir(incdir)):
+            if not h.endswith(".h"):
+                continue
+            for mode, mflags in HEADER_MODES.items():
+                ext = ".c" if mode == "c99" else ".cpp"
+                srcf = os.path.join(hdir, "solo_%s_%s%s" % (h[:-2], mode, ext))
+                with open(srcf, "w") as fh:
+                    fh.write('#include "%s"\n' % h)
+                out = os.path.join(hdir, "solo_%s_%s.json" % (h[:-2], mode))
+                solo_jobs.append((out, srcroot, srcf, flagsets["optim"] + mflags))
+                index["solo_headers"]["%s:%s" % (h, mode)] = {"facts": os.path.relpath(out, tmp)}
         with concurrent.futures.ThreadPoolExecutor(max_workers=os.cpu_count() or 4) as ex:
             res = list(ex.map(_parse_unit, jobs)) + list(ex.map(_preprocess_asm, asmjobs))
+            solo_res = list(ex.map(_parse_unit, solo_jobs))
+        for (out, _, srcf, _), (f, ok, msg) in zip(solo_jobs, solo_res):
+            base = os.path.basename(srcf)
+            m = re.match(r"solo_(.*)_(c99|cxx)\.", base)
+            key = "%s.h:%s" % (m.group(1), m.group(2))
+            index["solo_headers"][key]["ok"] = ok
+            if not ok:
+                errs = [l for l in msg.splitlines() if "error:" in l]
+                index["solo_headers"][key]["error"] = (errs[0] if errs else msg[-300:])[:400]
         bad = [(f, msg) for f, ok, msg in res if not ok]
         if bad:
             shutil.rmtree(tmp, ignore_errors=True)
